@@ -239,6 +239,8 @@ def lp_audit(events: Iterable[Event], limit: int = 40) -> Optional[str]:
     Every recorded linprog event is re-solved exactly over Q (z3).  Returns
       'lp-solver-wrong-optimum'  when a status-0 answer differs from the exact optimum by more than 1e-6 relative,
       'lp-solver-gave-up'        when the solver reported no optimum although the LP has one (and nothing worse),
+      'lp-retry-missing'         when such a report came from the presolved solve of the bounded-LP helper and the
+                                 helper did not solve again without presolve (pacti's fault, never a known finding),
       None                       when every LP was answered correctly (or none was recorded).
     The last attempt for an LP (after pacti's own retries) is what counts.
     """
@@ -288,5 +290,15 @@ def lp_audit(events: Iterable[Event], limit: int = 40) -> Optional[str]:
             if abs(got - float(val)) > 1e-6 * (1 + abs(float(val))):
                 return "lp-solver-wrong-optimum"
         elif lp["status"] != 0:
+            opts = e.args.get("options")
+            if isinstance(opts, dict) and isinstance(opts.get("D"), list):  # a dict as snapshotted by probes.snap
+                opts = {kv[0]: kv[1] for kv in opts["D"] if isinstance(kv, list) and len(kv) == 2}
+            elif not isinstance(opts, dict):
+                opts = {}
+            if "primal_feasibility_tolerance" in opts and opts.get("presolve") is not False:
+                # an LP of the bounded-LP helper (it alone passes tight tolerances) whose last attempt still ran with
+                # presolve: the helper drew a conclusion from a presolved solve that reported no optimum, without the
+                # second solve it owes - not a failure of the solver
+                return "lp-retry-missing"
             verdict = "lp-solver-gave-up"
     return verdict
